@@ -8,8 +8,8 @@ go build -o bin/vcheck ./cmd/vcheck
 for d in props/*/; do
   id=$(basename "$d")
   case "$id" in
-    c18|c20) go test -c -vet=off -race -o /dev/null "./props/$id" ;;
-    *) go test -c -vet=off -o /dev/null "./props/$id" ;;
+    c18|c20) go test -c -vet=off -race -o /dev/null "./props/$id" || echo "warning: $id does not build" ;;
+    *) go test -c -vet=off -o /dev/null "./props/$id" || echo "warning: $id does not build" ;;
   esac
 done
 echo setup ok
